@@ -119,8 +119,8 @@ class LogicConv2d(nn.Module):
                  for w in self.tree_weights[level]], dim=0
             )
         weighting_func = {
-            "soft": soft_raw,
-            "hard": hard_raw,
+            "soft": lambda w: soft_raw(w, tau=self.temperature),
+            "hard": lambda w: hard_raw(w, tau=self.temperature),
             "gumbel_soft": lambda w: gumbel_softmax(w, tau=self.temperature, hard=False),
             "gumbel_hard": lambda w: gumbel_softmax(w, tau=self.temperature, hard=True),
         }[self.forward_sampling]
